@@ -5,37 +5,45 @@
 -/
 import AcnProofs.Lemmas.SchedTrigger
 import AcnProofs.Lemmas.EventCoreRun
+import AcnModel.Ignored
 
 namespace Acn.EventCore
 open Acn
 
-/-- `Trace cfg sched apply c hs c'`: starting at loop head `c`, the loop passes the heads `hs`
-    (`c` first), each trip raising nothing, and arrives at loop head `c'` -/
-inductive Trace (cfg : Cfg) (sched apply : Core → Option Err) : Core → List Core → Core → Prop
-  | nil (c : Core) : Trace cfg sched apply c [] c
-  | cons {c c1 c' : Core} {hs : List Core} : guard c = true → body cfg sched apply c = (c1, none) →
-      Trace cfg sched apply c1 hs c' → Trace cfg sched apply c (c :: hs) c'
+/-- `TraceG g cfg sched apply c hs c'`: starting at loop head `c`, a loop whose continuation test is `g`
+    passes the heads `hs` (`c` first), each trip raising nothing, and arrives at loop head `c'`.
+    Nothing below depends on WHAT keeps the loop going: `g = guard` is `Simulator.run` over plug-in /
+    unplug / recompute events (`Trace`), `g = guardI ign` is the same loop over a queue that also holds
+    events of ignored types (`AcnModel/Ignored.lean`). -/
+inductive TraceG (g : Core → Bool) (cfg : Cfg) (sched apply : Core → Option Err) : Core → List Core → Core → Prop
+  | nil (c : Core) : TraceG g cfg sched apply c [] c
+  | cons {c c1 c' : Core} {hs : List Core} : g c = true → body cfg sched apply c = (c1, none) →
+      TraceG g cfg sched apply c1 hs c' → TraceG g cfg sched apply c (c :: hs) c'
+
+/-- the traces of `EventCore.run` -/
+abbrev Trace (cfg : Cfg) (sched apply : Core → Option Err) : Core → List Core → Core → Prop :=
+  TraceG guard cfg sched apply
 
 section
-variable {cfg : Cfg} {sched apply : Core → Option Err}
+variable {cfg : Cfg} {sched apply : Core → Option Err} {g : Core → Bool}
 
-/-- every run is a trace, followed (when it aborts) by one raising trip -/
-theorem run_trace : ∀ (n : Nat) (c c' : Core) (o : Option Err), run cfg sched apply n c = (c', o) →
+/-- every run of the loop (any continuation test) is a trace, followed (when it aborts) by one raising trip -/
+theorem runG_trace : ∀ (n : Nat) (c c' : Core) (o : Option Err), runG g cfg sched apply n c = (c', o) →
     match o with
-    | none => ∃ hs, Trace cfg sched apply c hs c' ∧ hs.length ≤ n ∧ (hs.length = n ∨ guard c' = false)
-    | some e => ∃ hs cl, Trace cfg sched apply c hs cl ∧ hs.length < n ∧ guard cl = true ∧
+    | none => ∃ hs, TraceG g cfg sched apply c hs c' ∧ hs.length ≤ n ∧ (hs.length = n ∨ g c' = false)
+    | some e => ∃ hs cl, TraceG g cfg sched apply c hs cl ∧ hs.length < n ∧ g cl = true ∧
         body cfg sched apply cl = (c', some e) := by
   intro n
   induction n with
   | zero =>
     intro c c' o h
-    simp only [run, Prod.mk.injEq] at h
+    simp only [runG, Prod.mk.injEq] at h
     obtain ⟨rfl, rfl⟩ := h
-    exact ⟨[], Trace.nil _, by simp, Or.inl rfl⟩
+    exact ⟨[], TraceG.nil _, by simp, Or.inl rfl⟩
   | succ n ih =>
     intro c c' o h
-    unfold run at h
-    by_cases hg : guard c = true
+    unfold runG at h
+    by_cases hg : g c = true
     · rw [if_pos hg] at h
       rcases hb : body cfg sched apply c with ⟨c1, _ | e⟩
       · rw [hb] at h
@@ -44,24 +52,55 @@ theorem run_trace : ∀ (n : Nat) (c c' : Core) (o : Option Err), run cfg sched 
         cases o with
         | none =>
           obtain ⟨hs, ht, hl, hor⟩ := this
-          refine ⟨c :: hs, Trace.cons hg hb ht, by simp; omega, ?_⟩
+          refine ⟨c :: hs, TraceG.cons hg hb ht, by simp; omega, ?_⟩
           rcases hor with hor | hor
           · exact Or.inl (by simp [hor])
           · exact Or.inr hor
         | some e =>
           obtain ⟨hs, cl, ht, hl, hgl, hbl⟩ := this
-          exact ⟨c :: hs, cl, Trace.cons hg hb ht, by simp; omega, hgl, hbl⟩
+          exact ⟨c :: hs, cl, TraceG.cons hg hb ht, by simp; omega, hgl, hbl⟩
       · rw [hb] at h
         simp only [Prod.mk.injEq] at h
         obtain ⟨rfl, rfl⟩ := h
-        exact ⟨[], c, Trace.nil _, by simp, hg, hb⟩
+        exact ⟨[], c, TraceG.nil _, by simp, hg, hb⟩
     · rw [if_neg hg] at h
       simp only [Prod.mk.injEq] at h
       obtain ⟨rfl, rfl⟩ := h
-      exact ⟨[], Trace.nil _, by simp, Or.inr (by simpa using hg)⟩
+      exact ⟨[], TraceG.nil _, by simp, Or.inr (by simpa using hg)⟩
+
+/-- `run` is the loop whose continuation test is `guard`; without ignored-type events `runI` is `run` -/
+theorem runG_guard : ∀ (n : Nat) (c : Core), runG guard cfg sched apply n c = run cfg sched apply n c := by
+  intro n
+  induction n with
+  | zero => intro c; rfl
+  | succ n ih =>
+    intro c
+    unfold runG run
+    split
+    · rcases body cfg sched apply c with ⟨c1, _ | e⟩
+      · exact ih c1
+      · rfl
+    · rfl
+
+theorem guardI_nil : guardI [] = guard := by
+  funext c
+  simp [guardI, ignoredPending]
+
+theorem runI_nil_eq (n : Nat) (c : Core) : runI cfg sched apply [] n c = run cfg sched apply n c := by
+  unfold runI
+  rw [guardI_nil]
+  exact runG_guard n c
+
+/-- every run is a trace, followed (when it aborts) by one raising trip -/
+theorem run_trace : ∀ (n : Nat) (c c' : Core) (o : Option Err), run cfg sched apply n c = (c', o) →
+    match o with
+    | none => ∃ hs, Trace cfg sched apply c hs c' ∧ hs.length ≤ n ∧ (hs.length = n ∨ guard c' = false)
+    | some e => ∃ hs cl, Trace cfg sched apply c hs cl ∧ hs.length < n ∧ guard cl = true ∧
+        body cfg sched apply cl = (c', some e) :=
+  fun n c c' o h => runG_trace (g := guard) n c c' o (by rw [runG_guard]; exact h)
 
 /-- along a trace the invariant is kept and `invoked` only grows, by periods of the trace -/
-theorem trace_head {c c' : Core} {hs : List Core} (ht : Trace cfg sched apply c hs c') (hc : Head c) :
+theorem trace_head {c c' : Core} {hs : List Core} (ht : TraceG g cfg sched apply c hs c') (hc : Head c) :
     Head c' ∧ c'.iter = c.iter + hs.length ∧
       ∃ ext, c'.invoked = c.invoked ++ ext ∧ ∀ t ∈ ext, c.iter ≤ t ∧ t < c'.iter := by
   induction ht with
@@ -80,20 +119,20 @@ theorem trace_head {c c' : Core} {hs : List Core} (ht : Trace cfg sched apply c 
       exact ⟨by omega, this.2⟩
 
 /-- a trace can be cut at any of its heads -/
-theorem trace_split {c c' : Core} {hs : List Core} (ht : Trace cfg sched apply c hs c') {h : Core} (hh : h ∈ hs) :
-    ∃ hs1 hs2, hs = hs1 ++ h :: hs2 ∧ Trace cfg sched apply c hs1 h ∧ Trace cfg sched apply h (h :: hs2) c' := by
+theorem trace_split {c c' : Core} {hs : List Core} (ht : TraceG g cfg sched apply c hs c') {h : Core} (hh : h ∈ hs) :
+    ∃ hs1 hs2, hs = hs1 ++ h :: hs2 ∧ TraceG g cfg sched apply c hs1 h ∧ TraceG g cfg sched apply h (h :: hs2) c' := by
   induction ht with
   | nil c => simp at hh
   | @cons c c1 c' hs hg hb ht' ih =>
     rcases List.mem_cons.1 hh with rfl | hh
-    · exact ⟨[], hs, rfl, Trace.nil _, Trace.cons hg hb ht'⟩
+    · exact ⟨[], hs, rfl, TraceG.nil _, TraceG.cons hg hb ht'⟩
     · obtain ⟨hs1, hs2, e, t1, t2⟩ := ih hh
-      exact ⟨c :: hs1, hs2, by rw [e]; rfl, Trace.cons hg hb t1, t2⟩
+      exact ⟨c :: hs1, hs2, by rw [e]; rfl, TraceG.cons hg hb t1, t2⟩
 
 /-- AT EVERY HEAD `h` OF A TRACE: `h` satisfies the invariant, the invocations recorded at the end
     that lie before `h.iter` are exactly those `h` had seen, and period `h.iter` is an invocation
     period iff the closed-form trigger holds in `h` -/
-theorem trace_at {c c' : Core} {hs : List Core} (ht : Trace cfg sched apply c hs c') (hc : Head c)
+theorem trace_at {c c' : Core} {hs : List Core} (ht : TraceG g cfg sched apply c hs c') (hc : Head c)
     {h : Core} (hh : h ∈ hs) :
     Head h ∧ c.iter ≤ h.iter ∧ h.iter < c'.iter ∧ c'.invoked.filter (· < h.iter) = h.invoked ∧
       (h.iter ∈ c'.invoked ↔ trig cfg.maxRecompute (popsAt h) h.invoked.getLast? h.iter = true) := by
@@ -134,7 +173,7 @@ theorem trace_at {c c' : Core} {hs : List Core} (ht : Trace cfg sched apply c hs
         simp [delta, htr]
 
 /-- nothing else is ever recorded: every invocation period is the period of a head of the trace -/
-theorem trace_cover {c c' : Core} {hs : List Core} (ht : Trace cfg sched apply c hs c') (hc : Head c) :
+theorem trace_cover {c c' : Core} {hs : List Core} (ht : TraceG g cfg sched apply c hs c') (hc : Head c) :
     ∀ t ∈ c'.invoked, t ∈ c.invoked ∨ ∃ h ∈ hs, h.iter = t := by
   induction ht with
   | nil c => intro t ht'; exact Or.inl ht'
@@ -152,7 +191,7 @@ theorem trace_cover {c c' : Core} {hs : List Core} (ht : Trace cfg sched apply c
     · exact Or.inr ⟨h, by simp [hh], rfl⟩
 
 /-- the heads of a trace are the consecutive periods -/
-theorem trace_iters {c c' : Core} {hs : List Core} (ht : Trace cfg sched apply c hs c') (hc : Head c) :
+theorem trace_iters {c c' : Core} {hs : List Core} (ht : TraceG g cfg sched apply c hs c') (hc : Head c) :
     hs.map (·.iter) = List.range' c.iter hs.length := by
   induction ht with
   | nil c => simp
@@ -199,7 +238,7 @@ theorem popsAt_ne_nil_iff (hv : Valid cfg) {t : Nat} {c : Core} (hI : Inv cfg t 
 
 /-- along a trace that starts in a state satisfying sim-core's loop invariant `Inv`, every head
     satisfies it for its own period -/
-theorem trace_inv (hv : Valid cfg) {c c' : Core} {hs : List Core} (ht : Trace cfg sched apply c hs c')
+theorem trace_inv (hv : Valid cfg) {c c' : Core} {hs : List Core} (ht : TraceG g cfg sched apply c hs c')
     {t : Nat} (hI : Inv cfg t c) : Inv cfg (t + hs.length) c' ∧ ∀ h ∈ hs, Inv cfg h.iter h := by
   induction ht generalizing t with
   | nil c => exact ⟨by simpa using hI, by simp⟩
